@@ -271,6 +271,14 @@ package auth
 //@        && i.items[k].value.Access == old(i.items[k].value.Access) && i.items[k].value.Role == old(i.items[k].value.Role)
 //@   ensures {C17} [absent-stays-absent] !old(in(k, i.items)) ==> !in(k, i.items)
 //@   ensures {C17} [other-keys-untouched] forall q string :: q != k ==> (in(q, i.items) <==> old(in(q, i.items))) && i.items[q] == old(i.items[q])
+// the pruner only takes expired entries out of the table, under the write lock, in the critical section in which it looked
+// at them; it never puts a table of its own in place (entries added since it looked would be lost). Lock discipline, stated
+// with the call counter; what the lock buys under concurrency is not proved.
+//@ func (*icache) gcCache
+//@   loop 1 invariant {C17} [the-pruner-never-replaces-the-table] i.items == old(i.items)
+//@   loop 1 invariant {C17} [between-rounds-the-lock-is-free] ncalls("sync.RWMutex.Lock") == ncalls("sync.RWMutex.Unlock")
+//@   loop 2 invariant {C17} [entries-are-looked-at-and-removed-under-the-write-lock] ncalls("sync.RWMutex.Lock") == ncalls("sync.RWMutex.Unlock") + 1 && i.items == old(i.items)
+//@   at-call builtin.delete {C17} [entries-are-removed-under-the-write-lock] requires ncalls("sync.RWMutex.Lock") == ncalls("sync.RWMutex.Unlock") + 1
 //@ func (*icache) get
 //@   requires {C17} [well-formed] i.items != nil
 //@   frame none
